@@ -186,6 +186,11 @@ class PageRenderer:
         text = self._format_group_header(info)
         if not text:
             return ""
+        # The heading is written outside the TextContent pipeline; non-ASCII
+        # characters still have to be escaped for the \ansi document.
+        from ..row import TextContent
+
+        text = TextContent._escape_non_ascii(text)
         return rf"{{\pard\hyphpar\fi0\li0\ri0\ql\fs18{{\f0 {text}}}\par}}"
 
     def _render_column_headers(self, document: Any, page: PageContext) -> list[str]:
